@@ -51,9 +51,9 @@ fn pair_body(k1: u8, k2: u8) {
     let fx = fixture(&[1, 9], 1);
     let (mut pool, _ch) = mk_pool(&fx);
     let h2 = 1 + vs::any_below(2);
-    let r1 = block_on_ready(pool.add_vote(validated(&fx, mk_vote(&fx, 0, k1, 1, SLOT))));
+    let r1 = p_add_vote(&mut pool, validated(&fx, mk_vote(&fx, 0, k1, 1, SLOT)));
     vcheck!(r1 == Ok(()), "first vote of a validator refused");
-    let r2 = block_on_ready(pool.add_vote(validated(&fx, mk_vote(&fx, 0, k2, h2, SLOT))));
+    let r2 = p_add_vote(&mut pool, validated(&fx, mk_vote(&fx, 0, k2, h2, SLOT)));
     let c = conflict(k1, 1, k2, h2);
     let d = repeat(k1, 1, k2, h2);
     match r2 {
@@ -79,7 +79,7 @@ fn bounds_body() {
     let fx = fixture(&[1, 9], 1);
     let (mut pool, _ch) = mk_pool(&fx);
     let slot = vs::any_u64();
-    let r = block_on_ready(pool.add_vote(validated(&fx, mk_vote(&fx, 0, 2, 1, slot))));
+    let r = p_add_vote(&mut pool, validated(&fx, mk_vote(&fx, 0, 2, 1, slot)));
     let far = 2 * crate::types::SLOTS_PER_EPOCH;
     vcheck!((r == Err(AddVoteError::SlotOutOfBounds)) == (slot >= far), "slot window of a fresh pool is not [0, 2 epochs)");
     vcheck!(slot >= far || r == Ok(()), "first vote inside the window refused");
